@@ -396,7 +396,8 @@ class BodyPath:
         self.note = note
 
 
-def explore_body(I, src, run_body, acc_names, poisoned, env, want_updates=(), tolerate_break_effects=False):
+def explore_body(I, src, run_body, acc_names, poisoned, env, want_updates=(), tolerate_break_effects=False,
+                 pass_index=False):
     """Explore the loop body for a generic index j; returns (jvar, [BodyPath])."""
     parent = I.ctx
     sterm = source_term(I, src)
@@ -418,6 +419,7 @@ def explore_body(I, src, run_body, acc_names, poisoned, env, want_updates=(), to
         I.ctx = child
         I.frozen_owner = id(child)
         j = child.fresh_int("j")
+        child._loop_j = j
         jname.append(j)
         child.assume(j >= 0)
         sterm.new_member(core.TRUE, j)
